@@ -430,12 +430,12 @@ def scenarios(tier):
              "threads": [{"h": 0, "ops": [R(1)]}, {"h": 0, "ops": [E(1), E(1)]}, {"h": 0, "ops": [E(1)]}]},
             {"name": "pages3", "init": [1, 2, 3], "handles": 1,
              "threads": [{"h": 0, "ops": [R(1)]}, {"h": 0, "ops": [L(1, 0), L(1, 1)]}, {"h": 0, "ops": [L(1, 1)]}]},
-            {"name": "w2_r2_r2", "init": [1], "handles": 1,
-             "threads": [{"h": 0, "ops": [A(2), R(1)]}, {"h": 0, "ops": [L(), L()]}, {"h": 0, "ops": [E(1), L()]}]},
+            {"name": "w1_r3_r1", "init": [1], "handles": 1,
+             "threads": [{"h": 0, "ops": [A(2)]}, {"h": 0, "ops": [L(), L(), E(2)]}, {"h": 0, "ops": [L()]}]},
             {"name": "three_handles", "init": [1], "handles": 3,
-             "threads": [{"h": 0, "ops": [A(2)]}, {"h": 1, "ops": [L(), L(), L()]}, {"h": 2, "ops": [L(), E(2)]}]},
-            {"name": "w1_r3_r2", "init": [1, 2], "handles": 1,
-             "threads": [{"h": 0, "ops": [R(2)]}, {"h": 0, "ops": [L(), L(), E(2)]}, {"h": 0, "ops": [E(2), L()]}]},
+             "threads": [{"h": 0, "ops": [A(2)]}, {"h": 1, "ops": [L(), L()]}, {"h": 2, "ops": [L()]}]},
+            {"name": "w2_r4", "init": [1], "handles": 1,
+             "threads": [{"h": 0, "ops": [A(2), R(1)]}, {"h": 0, "ops": [L(), E(1), L(), L()]}]},
         ]
     return s
 
@@ -465,9 +465,9 @@ def run(ctx):
     reproduced = {}
 
     # ---------------------------------------------------------------- 1. sequential lock-step histories
-    nseq = 4000 if thorough else 220
+    nseq = 2000 if thorough else 220
     seq = hmemo(["-mode", "seq", "-n", str(nseq), "-seed", str(ctx.seed)])
-    nflt = 1500 if thorough else 80
+    nflt = 600 if thorough else 80
     flt = hmemo(["-mode", "seq", "-n", str(nflt), "-seed", str(ctx.seed + 7919), "-faults"])
     allseq = seq + flt
     for c in allseq:
